@@ -18,8 +18,14 @@ from harness import common, wire
 
 
 class Recorder:
+    """stands in for a Channel in `Connection._channels`: the attributes a dispatcher may look at"""
+    current_state = 3
+    is_open = True
+    is_closed = False
+
     def __init__(self, cid, log):
         self.cid = cid
+        self.channel_id = self._channel_id = cid
         self.log = log
 
     def on_frame(self, frame_in):
